@@ -239,19 +239,20 @@ class Dm14Query:
         self.signed = signed
         self.return_raw_bytes = return_raw_bytes
         self.command = Command.READ
-        self._ca.subscribe(self._parse_dm15)
-        self._send_dm14(self.user_level)
-        self.state = QueryState.WAIT_FOR_SEED
+        self._start_operation()
         # wait for operation completed DM15 message
         raw_bytes = None
         try:
-            raw_bytes = self.data_queue.get(block=True, timeout=max_timeout)
-        except queue.Empty:
-            if self.state is QueryState.WAIT_FOR_SEED:
-                raise RuntimeError("No response from server")
-            pass
-        for _ in range(self.exception_queue.qsize()):
-            raise self.exception_queue.get(block=False, timeout=max_timeout)
+            try:
+                raw_bytes = self.data_queue.get(block=True, timeout=max_timeout)
+            except queue.Empty:
+                if self.state is QueryState.WAIT_FOR_SEED:
+                    raise RuntimeError("No response from server")
+                pass
+            for _ in range(self.exception_queue.qsize()):
+                raise self.exception_queue.get(block=False, timeout=max_timeout)
+        finally:
+            self._end_operation()
         if raw_bytes:
             if self.return_raw_bytes:
                 return raw_bytes
@@ -285,9 +286,7 @@ class Dm14Query:
         self.command = Command.WRITE
         self.bytes = self._values_to_bytes(values)
         self.object_count = len(values)
-        self._ca.subscribe(self._parse_dm15)
-        self._send_dm14(self.user_level)
-        self.state = QueryState.WAIT_FOR_SEED
+        self._start_operation()
         # wait for operation completed DM15 message
         try:
             self.data_queue.get(block=True, timeout=max_timeout)
@@ -297,6 +296,33 @@ class Dm14Query:
             if self.state is QueryState.WAIT_FOR_SEED:
                 raise RuntimeError("No response from server")
             pass  # expect empty queue for write
+        finally:
+            self._end_operation()
+
+    def _start_operation(self) -> None:
+        """
+        Start listening for the answers of the device and send the initial DM14 message
+        """
+        # results of an earlier (failed) operation must not be taken for ours
+        for q in (self.data_queue, self.exception_queue):
+            while not q.empty():
+                q.get(block=False)
+        self._ca.subscribe(self._parse_dm15)
+        try:
+            self._send_dm14(self.user_level)
+        except Exception:
+            self._ca.unsubscribe(self._parse_dm15)
+            raise
+        self.state = QueryState.WAIT_FOR_SEED
+
+    def _end_operation(self) -> None:
+        """
+        The operation is over (successfully or not): stop listening, otherwise the
+        handlers pile up and answer the messages of the next operation several times
+        """
+        self._ca.unsubscribe(self._parse_dm15)
+        self._ca.unsubscribe(self._parse_dm16)
+        self.state = QueryState.IDLE
 
     def set_seed_key_algorithm(self, algorithm: callable) -> None:
         """
